@@ -211,7 +211,6 @@ class MuEngine(Engine):
             if rec.new_spin == 1 and rec.spin == 0 and any((n & WT) and not (e & WT) for e, n in rec.pairs):
                 st.ghost[('flag', 'set_waiting', rec.instance)] = 1
             rec.set_waiting = st.ghost.get(('flag', 'set_waiting', rec.instance)) == 1
-            rec.parked = st.ghost.get(('flag', 'parked', rec.instance)) == 1
             if rec.new_spin == 0 and rec.spin == 1:
                 st.ghost.pop(('flag', 'set_waiting', rec.instance), None)
         if wcn == 'mu':
@@ -286,13 +285,6 @@ class MuEngine(Engine):
         if isinstance(p, Ptr) and p.path and p.path[-1][0] == 'f' and p.path[-1][1] == self.QUEUE_FIELDS['cv'] and isinstance(v, Ptr) \
                 and v.base.startswith(('waiter:', 'arg:nw', 'arg:w')):
             st.ghost[('flag', 'cv_enq')] = 1
-        # C13.R7: a thread that overwrites the head of a mutex queue with NULL has taken the list away (the scanning unlocker parks it in a local
-        # list); the queue then only looks empty.  Any other store to the head ends that.
-        if isinstance(p, Ptr) and p.path and p.path[-1][0] == 'f' and p.path[-1][1] == self.QUEUE_FIELDS['mu']:
-            if v == 0 and isinstance(inst.ops[0], dict) and inst.ops[0].get('k') in ('null', 'int'):
-                st.ghost[('flag', 'parked', Ptr(p.base, p.path[:-1]))] = 1
-            else:
-                st.ghost.pop(('flag', 'parked', Ptr(p.base, p.path[:-1])), None)
 
     def on_call(self, st, inst, callee, args):
         if callee == 'nsync_mu_semaphore_v':
